@@ -5,6 +5,8 @@
 (* the state constraint `Emit` prints every explored transition as JSON.   *)
 (* What is enumerated is selected by the constants:                        *)
 (*   Scn     "get" | "set" | "init" | "bad" | "pairs" | "hdr"              *)
+(*           | "nearset" | "nearshared" | "nearinit" | "sentinel"          *)
+(*             (see Near-valid images)                                     *)
 (*   GViews  the views to cover                                            *)
 (*   NRand   number of pseudo-random background images                     *)
 (*   Walk    TRUE: add walking-one/walking-zero images (every header bit)  *)
@@ -34,13 +36,54 @@ WalkZero(len, p) == Mat([i \in 1..len |-> IF (p \div 8) + 1 = i THEN 255 - P2[8 
 \* arena shapes: exact (no slack: header is the whole arena) and slack (3 leading, 5 trailing)
 Arena(img, lead, trail) == Pat(4, lead) \o img \o Pat(3, trail)
 
-StartImages(v) ==
+PlainImages(v) ==
   LET L == HdrLen[v] IN
     { [a |-> Pat(k, L), h |-> 0] : k \in BGs }
     \cup { [a |-> Arena(Pat(k, L), 3, 5), h |-> 3] : k \in BGs }
     \cup (IF Walk THEN { [a |-> WalkOne(L, p), h |-> 0] : p \in 0..(8*L - 1) }
                        \cup { [a |-> WalkZero(L, p), h |-> 0] : p \in 0..(8*L - 1) }
                   ELSE {})
+
+(***************************************************************************)
+(* Near-valid images.  An operation may take a short cut when the buffer   *)
+(* "already looks right" (value already in place, header already           *)
+(* initialised).  Such a short cut is only reachable from prior contents   *)
+(* that are related to the operation's own result, which no fixed or       *)
+(* random background is.  So: take the result the specification assigns to *)
+(* the operation, perturb it minimally - one bit flipped, one quadlet      *)
+(* byte-reversed, canonical prefix followed by junk - and run the          *)
+(* operation on that.                                                      *)
+(***************************************************************************)
+FlipBit(m, p) ==                           \* bit p (0 = msb of byte 1) of m inverted
+  LET i == (p \div 8) + 1  k == P2[8 - (p % 8)] IN
+  [m EXCEPT ![i] = IF (@ \div k) % 2 = 1 THEN @ - k ELSE @ + k]
+RevQuad(m, q) ==                           \* quadlet q (0-based) byte-reversed
+  [m EXCEPT ![4*q + 1] = m[4*q + 4], ![4*q + 2] = m[4*q + 3], ![4*q + 3] = m[4*q + 2], ![4*q + 4] = m[4*q + 1]]
+KVal == <<1, 35, 69, 103, 137, 171, 205, 239>>          \* 0x0123456789ABCDEF: no byte symmetry
+NearVals(w) == { Low(KVal, w), Low(KVal, (w + 1) \div 2), Zero64 }
+QuadsOf(v, f) == (FStart(v, f) \div 32)..((FStart(v, f) + FW(v, f) - 1) \div 32)
+NearFields(v) == IF Scn = "nearshared" THEN { f \in FieldNames(v) : \E g \in Shared : v \in g.views /\ f \in g.names }
+                 ELSE FieldNames(v)
+NearSetImages(v) ==
+  LET L == HdrLen[v] IN
+  UNION { UNION { LET post == SetSem(Pat(5, L), 0, v, f, x) IN
+                    { [a |-> FlipBit(post, p), h |-> 0, f |-> f, x |-> x] : p \in UNION { (32*q)..(32*q + 31) : q \in QuadsOf(v, f) } }
+                    \cup { [a |-> RevQuad(post, q), h |-> 0, f |-> f, x |-> x] : q \in QuadsOf(v, f) }
+                  : x \in NearVals(FW(v, f)) } : f \in NearFields(v) }
+NearInitImages(v) ==
+  LET L == HdrLen[v]  c == CanonHdr(v) IN
+     { [a |-> FlipBit(c, p), h |-> 0, f |-> "", x |-> Zero64] : p \in 0..(8*L - 1) }
+  \cup { [a |-> SubSeq(c, 1, 4*q) \o SubSeq(Pat(k, L), 4*q + 1, L), h |-> 0, f |-> "", x |-> Zero64] : q \in 1..((L \div 4) - 1), k \in {1, 5} }
+  \cup { [a |-> Arena(SubSeq(c, 1, 4) \o SubSeq(Pat(1, L), 5, L), 3, 5), h |-> 3, f |-> "", x |-> Zero64] }
+
+\* values that collide with in-band error codes (-errno as an unsigned value of the field's width)
+NegByte(e) == Mat([j \in 1..8 |-> IF j = 8 THEN 256 - e ELSE 255])      \* 2^64 - e, 1 <= e <= 255
+Errnos == {1, 2, 5, 9, 11, 12, 14, 16, 22, 34, 61, 75, 95, 110}
+SentinelVals(w) == { Low(NegByte(e), w) : e \in Errnos }
+SentinelImages(v) ==
+  LET L == HdrLen[v] IN
+  UNION { { [a |-> SetSem(Pat(k, L), 0, v, f, x), h |-> 0, f |-> f, x |-> x] : x \in SentinelVals(FW(v, f)), k \in {0, 2} }
+          : f \in { g \in FieldNames(v) : FW(v, g) >= 8 } }
 
 (***************************************************************************)
 (* Values per field width                                                  *)
@@ -69,8 +112,12 @@ InitOps(v) == IF v \in InitViews
                 ELSE {}
 
 \* out-of-range identifier classes for the by-identifier entry points (C11)
+\* "wrap<s>.<j>+<i>" = ceil(j * 2^32 / s) + i: identifiers whose product with a table element size s wraps modulo 2^32 to a
+\* small number (an index scaled to a byte position before the range check)
+WrapIds == UNION { { "wrap" \o ToString(s) \o "." \o ToString(j) \o "+" \o ToString(i) : j \in 1..(s - 1), i \in {0, 1} }
+                   : s \in {2, 3, 4, 5, 6, 7, 8, 12, 16, 24} }
 BadIds(v) == { "max", "max+1", "255", "256", "65536", "2^31-1", "2^31", "2^32-1", "2^32-256" }
-             \cup { "256+" \o f : f \in FieldNames(v) }
+             \cup { "256+" \o f : f \in FieldNames(v) } \cup WrapIds
 BadOps(v) ==
      { Op("badget", v, "", p, Zero64, id) : id \in BadIds(v), p \in Paths(v) \ {"dedicated"} }
   \cup { Op("badset", v, "", p, x, id) : id \in BadIds(v), p \in Paths(v) \ {"dedicated"}, x \in {AllFF, Zero64} }
@@ -79,11 +126,20 @@ BadOps(v) ==
   \cup (IF v \in InitViews THEN { Op("nullinit", v, "", p, Zero64, "") : p \in InitPaths(v) } ELSE {})
   \cup (IF v \in LegacyViews THEN { Op("nullout", v, f, "legacy", Zero64, "") : f \in FieldNames(v) } ELSE {})
 
+StartImages(v) ==
+  CASE Scn \in {"nearset", "nearshared"} -> NearSetImages(v)
+    [] Scn = "nearinit" -> IF v \in InitViews THEN NearInitImages(v) ELSE {}
+    [] Scn = "sentinel" -> SentinelImages(v)
+    [] OTHER -> { [a |-> s.a, h |-> s.h, f |-> "", x |-> Zero64] : s \in PlainImages(v) }
+
 OpsTable ==      \* constant-level: evaluated once per view
   [v \in GViews |->
      CASE Scn = "get"   -> GetOps(v)
        [] Scn = "set"   -> SetOps(v)
        [] Scn = "init"  -> InitOps(v)
+       [] Scn = "nearinit" -> InitOps(v)
+       [] Scn \in {"nearset", "nearshared"} -> UNION { { Op("set", v, f, p, x, "") : x \in NearVals(FW(v, f)), p \in Paths(v) } : f \in NearFields(v) }
+       [] Scn = "sentinel" -> GetOps(v)
        [] Scn = "bad"   -> BadOps(v)
        [] Scn = "pairs" -> FewSetOps(v) \cup InitOps(v)
        [] Scn = "hdr"   -> GetOps(v) \cup FewSetOps(v) \cup InitOps(v) \cup { Op("payload", v, "", "current", Zero64, "") }
@@ -97,11 +153,14 @@ ASSUME Buf = {1}
 GInit ==
   \E v \in GViews : \E s \in StartImages(v) :
      /\ mem = [b \in Buf |-> s.a] /\ hb = [b \in Buf |-> s.h] /\ out = Sentinel /\ n = 0
-     /\ step = Op("start", v, "", "", Zero64, "") @@
+     /\ step = Op("start", v, s.f, "", s.x, "") @@
                [buf |-> 1, base |-> s.h, pre |-> s.a, post |-> s.a, ret |-> NoRet, rc |-> 0, out |-> Sentinel]
 GNext ==
   /\ n < Depth /\ n' = n + 1
-  /\ \E o \in OpsAt(step.view, n) : Do(1, o)
+  /\ \E o \in OpsAt(step.view, n) :
+        /\ (Scn \in {"nearset", "nearshared", "sentinel"} /\ n = 0) => o.field = step.field          \* the operation the image was prepared for
+        /\ (Scn \in {"nearset", "nearshared"} /\ n = 0) => o.val = step.val
+        /\ Do(1, o)
 GSpec == GInit /\ [][GNext]_gvars
 
 \* read-back value shipped with every "set" so the replayer can call the getters afterwards
